@@ -10,6 +10,10 @@ package metadata
 // protoID is Protocol.ID() of an interface value: the Code field for *Unknown,
 // a constant of the dynamic type for every other transport.
 //@ spec func typeID(tag int) int
+// typeID of the fixed transports (the definitions are checked: each ID method is proved to return
+// protoID of its receiver)
+//@ axiom tid_bitswap []: typeID(tagof("metadata.Bitswap")) == 2304
+//@ axiom tid_gateway []: typeID(tagof("metadata.IpfsGatewayHttp")) == 2336
 //@ spec func protoID(p val) int = ite(typeis(p, "*metadata.Unknown"), as(p, "*metadata.Unknown").Code, typeID(typetag(p)))
 //@ spec func allNonNil(m val) bool = forall(qi, 0, len(m.protocols), m.protocols[qi] != nil)
 
@@ -214,3 +218,29 @@ package metadata
 //@ func protocolEqual
 //@   property C11
 //@   requires one != nil && other != nil
+
+// Fixed transports encode to exactly their canonical bytes and accept exactly those (C11: canonical, round trip).
+//@ func (Bitswap).MarshalBinary
+//@   property C11
+//@   pure
+//@   ensures result1 == nil && result0 == bitswapBytes
+//@ func (Bitswap).UnmarshalBinary
+//@   property C11
+//@   pure
+//@   ensures result == nil <==> content(data) == content(bitswapBytes)
+//@ func (IpfsGatewayHttp).MarshalBinary
+//@   property C11
+//@   pure
+//@   ensures result1 == nil && result0 == ipfsGatewayHttpBytes
+//@ func (IpfsGatewayHttp).UnmarshalBinary
+//@   property C11
+//@   pure
+//@   ensures result == nil <==> content(data) == content(ipfsGatewayHttpBytes)
+//@ func (Bitswap).ID
+//@   property C11
+//@   pure
+//@   ensures result == 2304
+//@ func (IpfsGatewayHttp).ID
+//@   property C11
+//@   pure
+//@   ensures result == 2336
